@@ -256,7 +256,16 @@ func checkC17(c *Ctx, r *Report) {
 				return
 			}
 			ci := describeCall(&call.Call)
-			if ci.Recv == "Limiter" && strings.Contains(ci.Pkg, "x/time/rate") {
+			// (*rate.Limiter).Reserve, or the same method behind a small interface of the package (its result is a
+			// *rate.Reservation either way)
+			viaIface := call.Call.IsInvoke() && (call.Call.Method.Name() == "Reserve" || call.Call.Method.Name() == "ReserveN" || call.Call.Method.Name() == "Tokens" || call.Call.Method.Name() == "TokensAt")
+			if viaIface {
+				ci.Name = call.Call.Method.Name()
+				if (ci.Name == "Reserve" || ci.Name == "ReserveN") && !strings.Contains(call.Type().String(), "rate.Reservation") {
+					viaIface = false
+				}
+			}
+			if (ci.Recv == "Limiter" && strings.Contains(ci.Pkg, "x/time/rate")) || viaIface {
 				switch ci.Name {
 				case "Reserve", "ReserveN":
 					reserves = append(reserves, call)
